@@ -105,9 +105,15 @@ fn backend<B: Backend>(opts: &Opts, rep: &mut Report) {
                 // in-budget parameter variety (cheap); defaults are exercised separately below
                 s.pw_params = if B::VER % 2 == 1 {
                     pw_param_bytes(B::VER, [1, 2, 3, 10, 100, 1000][g % 6], 0, 1)
+                } else if B::FAMILY == Family::RustCrypto {
+                    // any valid Argon2id cost: parallelism 1/2/4 (memory >= 8 KiB per lane), memory that
+                    // is not a multiple of 1 KiB
+                    let para = [1u32, 1, 2, 4][g % 4];
+                    let mem = [8u64 * 1024, 8704, 16 * 1024, 64 * 1024, 65000, 1024 * 1024][g % 6] * para as u64;
+                    pw_param_bytes(B::VER, 1 + (g % 3) as u32, mem, para)
                 } else {
-                    // memory in bytes: multiples of 1 KiB that every backend of the version accepts
-                    pw_param_bytes(B::VER, 1 + (g % 3) as u32, [8u64, 16, 64, 256, 1024][g % 5] * 1024, 1)
+                    // libsodium has no parallelism parameter (known finding under C07): parallelism 1 only
+                    pw_param_bytes(B::VER, 1 + (g % 3) as u32, [8u64 * 1024, 8704, 16 * 1024, 64 * 1024, 65000, 1024 * 1024][g % 6], 1)
                 };
             }
             let (sk, pk) = recipients[g % recipients.len()].clone();
